@@ -37,7 +37,9 @@ claim("C02",
       "DoGroupCommand.list) and every sequence executor on every CFG path: return/exit test leaves the loop, levels are decremented on "
       "every other path, iteration only past !is_break && !is_continue, while/until decrement once on a control-flow condition, "
       "is_normal_flow between consecutive children, and-or short-circuit skips, function/script boundaries consume return, break/continue "
-      "never leave a function, subshells return an exit code only. A necessary condition for bash-equal traces on all programs.",
+      "never leave a function, subshells return an exit code only, pipeline stages run in a subshell hand back a status only, `!` leaves the "
+      "status of return/exit alone, every selected case item assigns the status, and break/continue raise loop control flow only under a "
+      "loop-activity test (not so today: two known findings). A necessary condition for bash-equal traces on all programs.",
       "Trusted: rustc MIR. Not decided: equality of the executed trace and every intermediate $? with bash; the levels-1 arithmetic.",
       ST + "sibling protocol cross-check on MIR CFGs (dominance, must-pass-through, loop structure)", "DESIGN.md §3 C02")
 claim("C03",
@@ -113,7 +115,7 @@ claim("C04",
       "Decides the quoting-tag mechanism on all paths: tag maps (Unsplittable→Literal, Splittable→Pattern), the tag constructed by every "
       "expand_word_piece arm against a reference table, make_unsplittable on everything leaving double-quote processing, restoration "
       "of in_double_quotes on every path, split_fields touching only Splittable pieces, literal regex pieces escaped, glob activity asked "
-      "only of unquoted (Pattern) pieces, and a taint rule: "
+      "only of unquoted (Pattern) pieces, joins of fields are positional (no separator placed by accumulated emptiness), and a taint rule: "
       "no text derived from variable values / positional parameters / command-substitution output reaches a word or program parser "
       "inside brush_core::expansion.",
       "Trusted: rustc MIR; taint is not propagated through the long-lived &mut Shell / &mut WordExpander receivers. Not decided: "
@@ -180,7 +182,8 @@ claim("C05",
       "Decides only the clauses of the property that are visible in the shape of the code: the stage order of full word expansion "
       "(basic expansion dominates field splitting dominates pathname expansion, each fed with the previous stage's value; inside basic "
       "expansion brace ≺ parse ≺ per-piece expansion ≺ coalescing), that the glob stage is bypassed only on the two glob-disabling option "
-      "edges, that field splitting has the pipeline as its only caller, and that no stage glues several generated words into one string "
+      "edges, that field splitting has the pipeline as its only caller and closes a field by its piece count (an empty quoted piece keeps its "
+      "field), and that no stage glues several generated words into one string "
       "that is parsed as a single word again (reported today for brace expansion: known finding, `IFS=$'\\n'; set -- {a,b}; echo $#` "
       "prints 1). Necessary conditions for 'expansions happen in the same order, fields split at the same places'.",
       "Trusted: rustc MIR; bash's documented stage order. Known finding: brace-expansion words are joined with a blank and re-parsed "
